@@ -577,6 +577,53 @@ pub fn o_order(a: &Analysis) -> Vec<Violation> {
     out
 }
 
+/// Waiting receivers are served oldest first ("other waiters keep their order", C15): receive r1 was
+/// registered in the wait list before receive r2 was, r2 was handed its value by send s2, and r1 was still
+/// listed when s2 popped r2 - shown by r1 being served by a send that only began after s2 had returned
+/// (a listed waiter leaves the list only by being popped, by its own cancellation or by the tear-down;
+/// r1 got a value, so it was popped, and by a later send). The wait list is FIFO, so s2 must have
+/// popped r1.
+pub fn o_waiter_order(a: &Analysis) -> Vec<Violation> {
+    let mut out = Vec::new();
+    let single = |k: &str| matches!(k, "recv" | "recv_timeout" | "async_recv" | "stream_next");
+    let waiting: Vec<(&RecvEv, u64, &SendEv)> = a
+        .recvs
+        .iter()
+        .filter(|r| single(r.kind))
+        .filter_map(|r| {
+            let reg = a.d.recs[r.rec].reg?;
+            let id = match &r.ident {
+                Ident::Id(i) => *i,
+                _ => return None,
+            };
+            if a.recv_by_id.get(&id).map(|v| v.len()) != Some(1) {
+                return None;
+            }
+            let s = &a.sends[*a.send_by_id.get(&id)?];
+            Some((r, reg, s))
+        })
+        .collect();
+    for (r1, reg1, s1) in waiting.iter() {
+        for (r2, reg2, s2) in waiting.iter() {
+            if r1.rec == r2.rec || !(reg1 < reg2) || s2.ret == 0 {
+                continue;
+            }
+            // s2 delivered into r2 after r2 registered; r1 was served by a send that began after s2 returned
+            if *reg2 < s2.ret && s1.inv > s2.ret {
+                out.push(v(
+                    format!("waiters/overtaken@{}+{}", r1.kind, r2.kind),
+                    format!(
+                        "{} of task {} was waiting in the channel (registered at {}) before {} of task {} (registered at {}); {} id {} was handed to the younger waiter and returned at {} while the older one was still waiting: it was only served by {} id {} that began at {}",
+                        r1.kind, r1.task, reg1, r2.kind, r2.task, reg2, s2.kind, s2.id, s2.ret, s1.kind, s1.id, s1.inv
+                    ),
+                ));
+                return out;
+            }
+        }
+    }
+    out
+}
+
 /// O-cap: C08
 pub fn o_cap(a: &Analysis) -> Vec<Violation> {
     let mut out = Vec::new();
@@ -706,21 +753,22 @@ fn first_inv_of_cancelled(a: &Analysis, ri: usize) -> u64 {
 pub fn owned_prefixes(prop: &str) -> &'static [&'static str] {
     match prop {
         // a race on the payload slot means a receive may return bytes no send supplied
-        "C01" => &["ledger/dup-receive", "ledger/lost", "ledger/failed-send-delivered", "ledger/invented", "hb/race/KanalPtr"],
+        // a value destroyed twice had two owners (e.g. the channel destroyed it AND a receive returned it): duplicated
+        "C01" => &["ledger/dup-receive", "ledger/lost", "ledger/failed-send-delivered", "ledger/invented", "hb/race/KanalPtr", "ledger/double-drop"],
         "C02" => &["order/"],
         "C04" => &["ledger/mismatch", "ledger/invented", "hb/race/KanalPtr", "hb/race/owner-returnsxKanalPtr", "hb/race/publishxKanalPtr", "hb/race/re-publishxKanalPtr"],
         "C05" => &["ledger/double-drop", "ledger/leak", "ledger/option", "ledger/drop-of-garbage"],
-        "C06" => &["hang/", "progress/"],
+        "C06" => &["hang/", "progress/", "wait/"],
         "C07" => &["hb/race", "life/", "ledger/drop-of-garbage"],
         "C08" => &["cap/"],
-        "C09" => &["ledger/", "order/", "hang/", "count/", "close/", "progress/"],
+        "C09" => &["ledger/", "order/", "hang/", "count/", "close/", "progress/", "wait/"],
         "C10" => &["close/", "hang/"],
         "C11" => &["disc/", "hang/", "ledger/lost", "ledger/double-drop", "ledger/leak", "ledger/failed-send-delivered"],
         "C12" => &["count/"],
-        "C13" => &["panic/undocumented", "time/", "ledger/leak", "ledger/double-drop", "ledger/option", "ledger/failed-send-delivered", "life/", "hang/"],
+        "C13" => &["panic/undocumented", "time/", "ledger/leak", "ledger/double-drop", "ledger/option", "ledger/failed-send-delivered", "life/", "hang/", "wait/"],
         "C14" => &["nonblock/", "ledger/failed-send-delivered", "ledger/lost", "ledger/option", "explain/none"],
-        "C15" => &["ledger/", "life/", "order/", "hang/"],
-        "C16" => &["poll/", "stream/", "hang/", "ledger/dup-receive", "ledger/invented", "ledger/lost", "order/", "panic/undocumented"],
+        "C15" => &["ledger/", "life/", "order/", "hang/", "wait/", "waiters/"],
+        "C16" => &["poll/", "stream/", "hang/", "ledger/dup-receive", "ledger/invented", "ledger/lost", "order/", "panic/undocumented", "wait/"],
         "C19" => &["drain/", "order/", "nonblock/", "ledger/failed-send-delivered", "ledger/dup-receive"],
         _ => &[],
     }
@@ -790,6 +838,7 @@ pub fn evaluate(prop: &str, d: &RunData) -> (Vec<Violation>, Vec<Violation>) {
             all.extend(o_delivery(&a));
             all.extend(o_drops(&a));
             all.extend(o_order(&a));
+            all.extend(o_waiter_order(&a));
         }
         "C16" => {
             all.extend(o_poll(&a));
